@@ -9,6 +9,7 @@ import (
 	"context"
 	"errors"
 	"fmt"
+	"math"
 	"strings"
 	"sync"
 	"sync/atomic"
@@ -219,6 +220,7 @@ type RevClient struct {
 	Alias func(ctx context.Context, tok string) (string, error) `rpc_method:"rev.alias"`
 	Slow  func(ctx context.Context, tok string) (string, error)
 	Boom  func(ctx context.Context, tok string) (string, error)
+	Event func(ctx context.Context, tok string) error `notify:"true"`
 }
 
 type TokAPI struct{ W *World }
@@ -266,16 +268,26 @@ func (a *TokAPI) body(ctx context.Context, tok string, plan Plan) (Result, error
 			s.inReverse = true
 			a.W.mu.Unlock()
 			big := padFor(tok, 1<<20)
+			// the reverse calls get a context that is NOT cancelled when the connection ends: only the library's own
+			// "fail instead of block" path may release them
+			ctx := context.WithoutCancel(ctx)
 			var wg sync.WaitGroup
 			var nerr int32
 			for i := 0; i < plan.RevBurst; i++ {
 				wg.Add(1)
-				go func() {
+				go func(i int) {
 					defer wg.Done()
+					if i%2 == 1 {
+						// every second one is a reverse *notification*
+						if err := rc.Event(ctx, big); err != nil {
+							atomic.AddInt32(&nerr, 1)
+						}
+						return
+					}
 					if _, err := rc.Ident(ctx, big); err != nil {
 						atomic.AddInt32(&nerr, 1)
 					}
-				}()
+				}(i)
 			}
 			wg.Wait()
 			a.W.mu.Lock()
@@ -345,6 +357,15 @@ func (a *TokAPI) body(ctx context.Context, tok string, plan Plan) (Result, error
 		_ = p.Tok
 	case "custom":
 		panic(customPanic{A: 7})
+	case "funcstruct":
+		panic(struct {
+			F func()
+			C chan int
+		}{func() {}, make(chan int)})
+	case "chan":
+		panic(make(chan struct{}))
+	case "nan":
+		panic(math.NaN())
 	case "nilstringer":
 		var n *nilStringer
 		panic(n)
@@ -520,6 +541,9 @@ func (h *RevHandler) Ident(ctx context.Context, tok string) (string, error) {
 func (h *RevHandler) Aliased(ctx context.Context, tok string) (string, error) {
 	return h.ID + "/alias/" + tok, nil
 }
+
+// Event is the target of reverse notifications.
+func (h *RevHandler) Event(ctx context.Context, tok string) error { return nil }
 
 // Boom panics inside a client-side handler.
 func (h *RevHandler) Boom(ctx context.Context, tok string) (string, error) {
